@@ -17,8 +17,8 @@ MANIFEST = dict(
     technique="TLA+ model checking (TxGuard.tla) + replay of the TLC state graph on the real guard/engine + TLC trace validation (TraceTxGuard.tla)")
 
 
-def negative(ctx, cfg, want):
-    r = ctx.tlc("MCTxGuard", cfg, timeout=600, expect_ok=False)
+def negative(ctx, cfg, want, module="MCTxGuard"):
+    r = ctx.tlc(module, cfg, timeout=600, expect_ok=False)
     ctx.extra.setdefault("negative_controls", {})[cfg] = r["inv"]
     if r["inv"] not in want:
         raise vlib.Broken("negative control %s: expected violation of %s, got %s\n%s" % (cfg, want, r["inv"], r["out"][-1500:]))
@@ -29,13 +29,51 @@ def run(ctx):
     # ---------------- layer 1: the guard alone
     dot = ctx.path("txguard.dot")
     cfg = "MCTxGuard_quick.cfg" if ctx.quick() else "MCTxGuard_full3.cfg"
-    ctx.tlc_exhaustive("MCTxGuard", cfg, timeout=900, dump=dot)
-    negative(ctx, "MCTxGuard_neg.cfg", ("GuardSound",))
-    files, summ = ctx.replay("txguard", graph=dot, shards=16, maxlen=30, timeout=1200)
-    ok = ctx.validate("TraceTxGuard", "TraceTxGuard.cfg", files, what="layer 1: state-graph replay on the real TxGuard", timeout=1800)
+    r = ctx.tlc_exhaustive("MCTxGuard", cfg, timeout=900, dump=dot, coverage=not ctx.quick())
+    if not ctx.quick() and r.get("zero_cov"):
+        raise vlib.Broken("vacuity: actions never taken in %s: %s" % (cfg, r["zero_cov"]))
+    negative(ctx, "MCTxGuard_neg.cfg", ("GuardSound",))                      # identity = hash over the signature bytes (the code)
+    if not ctx.quick():
+        negative(ctx, "MCTxGuard_negprune.cfg", ("GuardSound", "WindowSufficient", "TracerComplete"))   # prune 60 s too early
+        negative(ctx, "MCTxGuard_negreload.cfg", ("GuardSound", "WindowSufficient", "TracerComplete"))  # reload '<' instead of '<='
+        ctx.tlc_exhaustive("MCTxGuard", "MCTxGuard_thorough.cfg", timeout=1500)                         # 4 blocks, design side only
+    files, summ = ctx.replay("txguard", graph=dot, shards=16, maxlen=30, timeout=1800)
+    ok = ctx.validate("TraceTxGuard", "TraceTxGuard.cfg", files, what="layer 1: state-graph replay on the real TxGuard", timeout=2400)
     ctx.cov["samples"] = summ["samples"]
     ctx.cov["exhaustive"] = True
     ctx.extra["l1_transitions_in_graph"] = summ["graph_edges"]
     ctx.extra["l1_distinct_transitions_replayed"] = summ["graph_edges"] if ok else 0
+    sim1 = ctx.tlc_simulate("MCTxGuard", "MCTxGuard_sim5.cfg", num=200 if ctx.quick() else 4000, depth=12, prefix="l1sim")
+    files1, _ = ctx.replay("txguard", sim=sim1, shards=16, name="txguard_sim", timeout=1800)
+    ctx.validate("TraceTxGuard", "TraceTxGuard.cfg", files1, what="layer 1: simulated 5-block histories", timeout=1800)
     ctx.assumptions += ["block timestamps on a 30 s grid (offsets 1830..3750 s from an epoch that is a multiple of 60); a child's timestamp is >= its parent's",
                         "saved blocks carry only transactions inside their window (what verifyTxs admits); queries are asked about the stable block and its descendants"]
+
+    # ---------------- layer 2: through the engine (real blocks from the real assembler offered to a real chain.BlockChain)
+    dot2 = ctx.path("txguardchain.dot")
+    cfg2 = "MCTxGuardChain_quick.cfg" if ctx.quick() else "MCTxGuardChain_thorough.cfg"
+    ctx.tlc_exhaustive("MCTxGuardChain", cfg2, timeout=900, dump=dot2)
+    negative(ctx, "MCTxGuardChain_negdup.cfg", ("AtMostOnce",), module="MCTxGuardChain")
+    negative(ctx, "MCTxGuardChain_negenc.cfg", ("AtMostOnce",), module="MCTxGuardChain")
+    files2, summ2 = ctx.replay("replayprot", graph=dot2, shards=16, maxlen=30, limit=900 if ctx.quick() else 0, timeout=2400)
+    ok2 = ctx.validate("TraceTxGuardChain", "TraceTxGuardChain.cfg", files2, what="layer 2: placements offered to the real engine", timeout=1800)
+    ctx.extra["l2_transitions_in_graph"] = summ2["graph_edges"]
+    ctx.extra["l2_behaviours_replayed"] = "%d of %d" % (summ2["behaviours"], summ2["behaviours_total"])
+    ctx.cov["samples"] += summ2["samples"][:2]
+    # window / pruning / restart-reload boundaries through the engine: 3 offered blocks, small menu
+    dot3 = ctx.path("txguardchain_window.dot")
+    ctx.tlc_exhaustive("MCTxGuardChain", "MCTxGuardChain_windowq.cfg" if ctx.quick() else "MCTxGuardChain_window.cfg", timeout=900, dump=dot3)
+    filesw, summw = ctx.replay("replayprot", graph=dot3, shards=16, maxlen=30, limit=700 if ctx.quick() else 0, name="replayprot_window", timeout=2400)
+    ctx.validate("TraceTxGuardChain", "TraceTxGuardChain.cfg", filesw, what="layer 2: window/pruning/restart boundaries", timeout=1800)
+    ctx.extra["l2_window_behaviours_replayed"] = "%d of %d" % (summw["behaviours"], summw["behaviours_total"])
+    # the engine's own miner with a pool filled by the engine's fork bookkeeping (recording driver)
+    mine = ctx.path("traces", "mine.ndjson")
+    ctx.drive("replayprot-mine", ["-out", mine], env={"VERIF_SCRATCH_DIR": ctx.path("work", "mine", ".keep")[:-6]})
+    ctx.validate("TraceTxGuardChain", "TraceTxGuardChain.cfg", [mine], what="layer 2: DPoVP.MineBlock after side-fork blocks", timeout=600)
+    # longer histories (4 offered blocks, full menu / time grid) by simulation
+    sim = ctx.tlc_simulate("MCTxGuardChain", "MCTxGuardChain_sim.cfg", num=160 if ctx.quick() else 3000, depth=9, prefix="l2sim")
+    files3, _ = ctx.replay("replayprot", sim=sim, shards=16, name="replayprot_sim", timeout=2400)
+    ctx.validate("TraceTxGuardChain", "TraceTxGuardChain.cfg", files3, what="layer 2: simulated 4-block histories", timeout=1800)
+    ctx.assumptions += ["layer 2: 2 deputies, 30 s slots, block timestamps genesis + {30, 60, 1830, 1860, 1890} s; t/boxes expire at genesis+1830, u at genesis+1860",
+                        "effects are observed as recipient balance / amount in the state of each block (builder and node under test)",
+                        "miner driver: the chain is laid out relative to a clock read once (genesis = now - 600 s, 100000 s slots, expirations genesis + 1500 s); verdicts hold for any run shorter than 15 minutes"]
